@@ -109,6 +109,21 @@ def random_antichain(p, rng, size, maxres=29):
     return cur
 
 
+def spine_antichain(p, rng, depth):
+    """a complete partition of the globe with one spine refined down to `depth`: every level contributes the
+    siblings of the spine cell, so compaction has to cascade through every level up to the world cell"""
+    ser, org, utils = cells.api()
+    out = []
+    cur = 0
+    while ser.get_resolution(cur) < depth:
+        kids = ser.cell_to_children(cur)
+        nxt = rng.choice(kids)
+        out += [k for k in kids if k != nxt]
+        cur = nxt
+    out.append(cur)
+    return out
+
+
 def deep_descent(p, rng, maxres=29):
     """one random path to a deep resolution; returns sibling groups along it (near-miss shapes)"""
     ser, org, utils = cells.api()
